@@ -28,7 +28,11 @@ type cs struct {
 	Names  *names        `json:"names,omitempty"`
 	SeedID int           `json:"seed_id"`
 	Sizes  [][]int       `json:"sizes,omitempty"` // input sizes for programs with unsized arguments
-	Mut    string        `json:"mut,omitempty"`   // kind:args
+	// deep: a synthetic native file: "nested-type:<n>" = one input whose type string is n array prefixes deep,
+	// "nested-compound:<n>" = n compound members nested in each other (every declared size is at most 1 / the
+	// string's length)
+	Deep string `json:"deep,omitempty"`
+	Mut  string `json:"mut,omitempty"` // kind:args
 }
 
 // names decorates a generated circuit's I/O with synthetic names/compounds.
@@ -602,6 +606,14 @@ func wellFormed(c *circuit.Circuit) string {
 	return ""
 }
 
+func firstLines(s string, n int) string {
+	l := strings.Split(strings.TrimSpace(s), "\n")
+	if len(l) > n {
+		l = l[:n]
+	}
+	return strings.Join(l, " | ")
+}
+
 func mutClass(mut string) string {
 	return strings.SplitN(mut, ":", 2)[0]
 }
@@ -655,7 +667,100 @@ func runMalformed(ctx *runner.Ctx, k cs) {
 	}
 }
 
+func u32b(v int) []byte {
+	var b [4]byte
+	binary.BigEndian.PutUint32(b[:], uint32(v))
+	return b[:]
+}
+
+func deepFile(kind string, n int) []byte {
+	var f []byte
+	str := func(s string) {
+		f = append(f, u32b(len(s))...)
+		f = append(f, s...)
+	}
+	switch kind {
+	case "nested-type", "nested-array-type":
+		f = append(f, u32b(circuit.MAGIC)...)
+		f = append(f, u32b(1)...) // gates
+		f = append(f, u32b(2)...) // wires
+		f = append(f, u32b(1)...) // inputs
+		f = append(f, u32b(1)...) // outputs
+		str("a")
+		if kind == "nested-type" {
+			str(strings.Repeat("[]", n) + "uint8")
+		} else {
+			str(strings.Repeat("[1]", n) + "uint1")
+		}
+		f = append(f, u32b(1)...) // bits
+		f = append(f, u32b(0)...) // compound
+		str("r")
+		str("uint1")
+		f = append(f, u32b(1)...)
+		f = append(f, u32b(0)...)
+		f = append(f, byte(circuit.INV))
+		f = append(f, u32b(0)...)
+		f = append(f, u32b(1)...)
+	case "nested-compound":
+		f = append(f, u32b(circuit.MAGIC)...)
+		f = append(f, u32b(0)...) // gates
+		f = append(f, u32b(1)...) // wires
+		f = append(f, u32b(1)...) // inputs
+		f = append(f, u32b(0)...) // outputs
+		for i := 0; i < n; i++ {
+			str("")
+			str("b")
+			f = append(f, u32b(1)...)
+			if i == n-1 {
+				f = append(f, u32b(0)...)
+			} else {
+				f = append(f, u32b(1)...)
+			}
+		}
+	}
+	return f
+}
+
+// runDeep: a native file with deeply nested (but individually tiny) declarations must give an error or a circuit
+// in reasonable time and must not take the process down.
+func runDeep(ctx *runner.Ctx, k cs) {
+	parts := strings.SplitN(k.Deep, ":", 2)
+	n, _ := strconv.Atoi(parts[1])
+	data := deepFile(parts[0], n)
+	ctx.Nontrivial("deep/" + k.Deep)
+	r, done := guardedParse(data, "mpclc")
+	for i := 0; i < 2 && !done; i++ {
+		r, done = guardedParse(data, "mpclc")
+	}
+	site := "malformed.mpclc."
+	switch {
+	case !done:
+		ctx.Violate(site+"hang."+parts[0], fmt.Sprintf("parser did not return within 60 s on a %d-byte file (%s; normal: milliseconds)", len(data), k.Deep), k)
+	case r.panic != nil:
+		ctx.Violate(site+"panic."+parts[0], fmt.Sprintf("parser panicked: %v (%s)", r.panic, k.Deep), k)
+	case r.err != nil:
+		ctx.Outcome("error/deep")
+	default:
+		ctx.Outcome("accepted/deep")
+	}
+}
+
 func runCase(ctx *runner.Ctx, k cs) {
+	if k.Deep != "" {
+		if os.Getenv("C14_DEEP_CHILD") != "" {
+			ctx.Eval(1)
+			runDeep(ctx, k)
+			return
+		}
+		os.Setenv("C14_DEEP_CHILD", "1")
+		crashed, tail := ctx.RunIsolated(k, 400*time.Second)
+		os.Unsetenv("C14_DEEP_CHILD")
+		if crashed {
+			ctx.Eval(1)
+			ctx.Violate("malformed.mpclc.crash."+strings.SplitN(k.Deep, ":", 2)[0], "parsing killed the process (a fatal runtime error cannot be recovered by the caller): "+firstLines(tail, 3)+" :: "+k.Deep, k)
+		}
+		return
+	}
 	if k.Mode == "roundtrip" && k.Names != nil && !ctx.Replay {
 		// a parser that loses its place in a large header may try to allocate
 		// gigabytes: run these cases in a child process
@@ -723,6 +828,10 @@ func work(ctx *runner.Ctx) {
 				cases = append(cases, cs{Mode: "roundtrip", Format: f, Src: sp.src, SeedID: 300 + 10*i + j, Sizes: sz})
 			}
 		}
+	}
+	// deeply nested declarations
+	for _, d := range []string{"nested-type:100", "nested-type:2000", "nested-type:50000", "nested-array-type:30000", "nested-compound:1000", "nested-compound:100000", "nested-compound:1500000"} {
+		cases = append(cases, cs{Mode: "malformed", Format: "mpclc", Deep: d})
 	}
 	nameLens := []int{0, 1, 255, 256, 4000, 4060, 4070, 4080, 4090, 4095, 4096, 4097, 4100, 5000, 8191, 8192, 8193, 70000}
 	for _, nl := range nameLens {
